@@ -138,6 +138,9 @@ pub mod traits;
 #[cfg(feature = "std")]
 mod io;
 mod join;
+#[cfg(all(blake3_team_blake3_verif, feature = "std"))]
+#[doc(hidden)]
+pub use join::verif as verif_join;
 
 use arrayref::{array_mut_ref, array_ref};
 use arrayvec::{ArrayString, ArrayVec};
@@ -811,6 +814,9 @@ fn compress_subtree_wide<J: join::Join>(
         cmp::max(platform.simd_degree(), 2)
     };
     let (left_out, right_out) = cv_array.split_at_mut(degree * OUT_LEN);
+
+    #[cfg(all(blake3_team_blake3_verif, feature = "std"))]
+    join::verif::note_split(chunk_counter, input.len() as u64);
 
     // Recurse! For update_rayon(), this is where we take advantage of RayonJoin and use multiple
     // threads.
